@@ -377,6 +377,11 @@ class Engine:
         x = z3.simplify(x) if not z3.is_int_value(x) else x
         key = (x.get_id(), d.get_id())
         if key not in self.euclid_cache:
+            for (x1, d1, q1, r1) in EUCLID:  # the specification side already introduced witnesses for the same dividend and divisor: share them
+                if x1.eq(x) and d1.eq(d):
+                    self.euclid_cache[key] = (q1, r1, x1, d1)
+                    break
+        if key not in self.euclid_cache:
             self.euclid_cache[key] = (fresh("q"), fresh("r"), x, d)
             EUCLID.append((x, d, self.euclid_cache[key][0], self.euclid_cache[key][1]))
         q, r, x0, d0 = self.euclid_cache[key]
